@@ -333,7 +333,7 @@ def run(ck):
              "script has ended, packets delivered to a consumer, consumer closed. non-trivial = a script that deviates from "
              "the all-ok handshake or reaches the play phase",
         trusted=["the fake camera and its request classifier (harness) — Authorization headers are recomputed from the route URL's credentials",
-                 "sockets are counted through /proc/self/fd, goroutines through runtime.Stack filtered to pull_client functions",
+                 "open connections = the process's own file descriptors whose getpeername is the camera's port; goroutines through runtime.Stack filtered to pull_client functions",
                  "the client's response deadline (config.NetTimeout, set through config.VerifSetNetTimeout) is 20 s in every step that is not a time-out scenario and 2 s only for the read that meets the scripted silence (the camera shortens it just before answering the preceding step; a play phase ending in a silence is kept busy with ignored unsolicited responses until the silence starts); every wait of the harness is a wait for the event itself with a 30 s bound; a process that ran into a bound answers later cases !skip and they are re-run in a fresh process; unevaluable cases are counted (evidence: unevaluated), never judged"],
         assumptions=["the camera's 200 replies to SETUP and PLAY carry a Session header, other replies do not",
                      "loopback TCP; DNS and faults below TCP are outside", "keep-alive OPTIONS (30 s) does not fire within a scenario"])
